@@ -10,6 +10,7 @@ HOOK_COMMITS = [
     "39e74dc H4 sway-lsp server_state.rs, handlers/notification.rs, forc-pkg pkg.rs, sway-core check_should_abort",
     "bdd6923 H5 forc-util/src/fs_locking.rs",
     "1bc8de8 H6 forc-pkg/src/source/git/mod.rs",
+    "922cdf9, 0aa3e36, bb9e6f8, ac6d910: fix commits whose rewritten code keeps / moves guarded hook points (H5 points around the new rename, H6 point fetch.renamed, H4 points in the worker and didOpen); the guarded lines are inside cfg(fuellabs_sway_verif) like the others",
 ]
 
 # id -> (category, technique, level text, level note, design ref, engine)
